@@ -10,6 +10,7 @@ import (
 )
 
 func init() {
+	register("C18info", genC18info)
 	register("C17", genC17)
 	register("C18", genC18)
 }
@@ -122,8 +123,11 @@ func genC17(r *rand.Rand, n int, emit func(string)) {
 			emit(proto.Line("process", M{"ns": ns, "req": proto.Hex(b), "uri": uri, "label": plabel}))
 			continue
 		}
-		switch r.Intn(16) {
+		switch r.Intn(17) {
 		case 0, 1:
+		case 16: // the suffix segment ends in the true suffix but is longer
+			did = ns + ":" + pick(r, []string{"x", suffix, "Ei", "-"}) + suffix + ":" + initial
+			label = "suffix-of-another-request"
 		case 14: // the type member of the initial state says something else (canonical otherwise)
 			mod := deepCopy(req).(map[string]interface{})
 			mod["type"] = pick(r, []string{"breate", "Create", "update", "x", "creat", "create "})
@@ -295,5 +299,30 @@ func genC18(r *rand.Rand, n int, emit func(string)) {
 			// the same state through the generic document transformer
 			emit(proto.Line("gtransform", body))
 		}
+	}
+}
+
+// genC18info: what docutil builds as transformation info, for published and unpublished states.
+func genC18info(r *rand.Rand, n int, emit func(string)) {
+	refs := []string{"", "", "bafkrei-1", "cas:ref2", "r3"}
+	for i := 0; i < n; i++ {
+		ns := pick(r, []string{"did:foo", "did:sidetree:test", "did:ion"})
+		suffix := "Ei" + ident(r, 8)
+		if r.Intn(2) == 0 {
+			var er []interface{}
+			for j := r.Intn(4); j > 0; j-- {
+				er = append(er, pick(r, refs[2:])+ident(r, 1))
+			}
+			if r.Intn(6) == 0 {
+				er = nil
+			}
+			emit(proto.Line("tinfo", M{"published": true, "ns": ns, "id": ns + ":" + suffix, "suffix": suffix, "cr": pick(r, refs), "er": er,
+				"label": "published"}))
+			continue
+		}
+		domain := pick(r, []string{"", "", "https:example.com", "dom"})
+		label := pick(r, []string{"", "", "interim", "https:example.com:label", "domlabel", "x"})
+		emit(proto.Line("tinfo", M{"published": false, "ns": ns, "domain": domain, "label": label, "suffix": suffix,
+			"jcs": pick(r, []string{"", "eyJ" + ident(r, 6)}), "label2": "unpublished"}))
 	}
 }
